@@ -1,0 +1,14 @@
+//go:build verif
+
+package shell_operator
+
+import (
+	"github.com/flant/shell-operator/pkg/task"
+	"github.com/flant/shell-operator/pkg/task/queue"
+)
+
+// VerifC12TaskHandler exposes the queue handler (taskHandler -> taskHandleHookRun -> handleRunHook)
+// to the verification harness (C12): the harness plays the queue workers itself.
+func (op *ShellOperator) VerifC12TaskHandler(t task.Task) queue.TaskResult {
+	return op.taskHandler(t)
+}
